@@ -567,6 +567,7 @@ func (x *asExec) quiescent(label string) {
 		byPath[cs.Path] = cs
 	}
 	x.ev(map[string]any{"e": "QBegin", "s": label})
+	fwd, rev := x.sys.VerifStreamEntries()
 	for _, n := range x.sc.Names {
 		cs, reg := byPath[x.pathOf(n)]
 		x.mu.Lock()
@@ -588,7 +589,9 @@ func (x *asExec) quiescent(label string) {
 			s := mb.VerifState()
 			nuser, paused = int(s.UserLen), int(s.Paused)
 		}
-		x.ev(map[string]any{"e": "AState", "a": n, "s": st, "v": paused, "n": cs.Stash, "m": nuser, "i": len(cs.Children), "d": fmt.Sprint(cs.Jobs)})
+		// k: entries of the event stream for this path as "forward/reverse"
+		x.ev(map[string]any{"e": "AState", "a": n, "s": st, "v": paused, "n": cs.Stash, "m": nuser, "i": len(cs.Children), "d": fmt.Sprint(cs.Jobs),
+			"k": fmt.Sprintf("%d/%d", fwd[x.pathOf(n)], rev[x.pathOf(n)])})
 	}
 	x.ev(map[string]any{"e": "QEnd"})
 }
